@@ -69,7 +69,7 @@ def value(kind, iv):
     """an argument of 'any type': kind 0 -> the (symbolic) int iv, else a concrete sample of another type"""
     if kind == 0:
         return iv
-    for k, v in ((1, True), (2, 'E0_B'), (3, 'nope'), (4, b'ab'), (5, 1.5), (6, None)):
+    for k, v in ((1, True), (2, 'E0_B'), (3, 'nope'), (4, b'ab'), (5, 1.5), (6, None), (8, 'E0_A'), (9, 'E0_C')):
         if kind == k:
             return v
     return [1]
